@@ -45,7 +45,8 @@ class MiniLoop(asyncio.AbstractEventLoop):
                     i = 0 if (self.chooser is None or n == 1) else self.chooser(n)
                     tag, fut = self.pending[i]; del self.pending[i]
                     self.releases.append(tag)
-                    fut.set_result(None)
+                    if not fut.done():          # a gate whose waiter was cancelled by the code under test: nothing to release
+                        fut.set_result(None)
                 else:
                     raise RuntimeError("deadlock")
             return t.result()
